@@ -686,8 +686,10 @@ func init() {
 						}
 						sp.Ops = generalSketchOps(m, k, exact)
 						sp.Ops = append(sp.Ops, skRead(1), skReadEncode(1))
+						// unit change with the same mapping (scale 1 is the copy path)
+						sp.Ops = append(sp.Ops, skChangeMap(1, 0, ms, 1))
 						if orderFree(sp.Stores) {
-							sp.Ops = append(sp.Ops, skChangeMap(1, 0, MapSpec{Kind: 'C', Alpha: 0.05}, 2))
+							sp.Ops = append(sp.Ops, skChangeMap(1, 0, MapSpec{Kind: 'C', Alpha: 0.05}, 2), skChangeMap(1, 0, MapSpec{Kind: 'C', Alpha: 0.05}, 1), skChangeMap(0, 1, ms, 0.5))
 						}
 						specs = append(specs, sp)
 					}
